@@ -26,8 +26,10 @@ def schema_terms():
         S("bool"), INT, S("int", ("min", 0), ("max", 7)), S("float"),
         S("float", ("min", 0.15), ("max", 0.35)), S("float", ("min", 1.0), ("max", 2.0), ("precision", 2)),
         STR, S("str", ln(5)), S("str", ("alphabet", "abc"), ln(3)), S("str", ("contains", "ab"), ln(2, 4)),
+        S("str", ("alphabet", "mississippi"), ln(4)),          # an alphabet with repeated letters
         rx("a"), rx("."), rx(r"\d"), rx(r"\w"), rx("[ab]"), rx("[a-c]"), rx("[^ab]"), rx("[^a]"),
         rx(r"[^\d]"), rx("[^a-c]"), rx("a{2,4}"), rx("(a|b)c?"), rx("x*"), rx(r"[\w-]+"),
+        rx("^(a|b|c)$"), rx("(a|b)-([0-9])"),                  # only literals/groups at top level
         ("list", ("typed", INT), (ln(3),)), ("list", ("typed", S("str", ln(1))), (ln(1, 2),)),
         ("any", (INT, STR)), S("bytes"),
         ("dict", (("a", False, INT), ("b", False, S("str", ln(2)))), False), NONE,
@@ -47,25 +49,32 @@ def sequences(tier):
             yield t
 
 
-def seed_value(k):
-    return int(k) if k.lstrip("-").isdigit() else k
-
-
 def main():
-    k, tier, mode = sys.argv[1], sys.argv[2], sys.argv[3]
+    """argv: <json list of seeds> <tier> <mode> [fwd|rev].  In mode 'digests' the seeds are run
+    one after the other in this one process (so a later seed sees whatever an earlier one left
+    behind), each over all sequences in forward or reverse enumeration order."""
+    seeds, tier, mode = json.loads(sys.argv[1]), sys.argv[2], sys.argv[3]
+    order = sys.argv[4] if len(sys.argv) > 4 else "fwd"
     schemas = [build(t) for t in schema_terms()]
     if mode == "digests":
         rnd = Random()
-        digests, unstable = [], []
-        for idx, seq in enumerate(sequences(tier)):
-            def once():
-                rnd.set_seed(seed_value(k))
-                return src([fake(schemas[i]) for i in seq])
-            a = once()
-            if once() != a:
-                unstable.append(idx)
-            digests.append(hashlib.sha1(a.encode()).hexdigest()[:16])
-        json.dump({"digests": digests, "unstable": unstable}, sys.stdout)
+        out = []
+        seqs = list(enumerate(sequences(tier)))
+        if order == "rev":
+            seqs.reverse()
+        for k in seeds:
+            digests, unstable = {}, []
+            for idx, seq in seqs:
+                def once():
+                    rnd.set_seed(k)
+                    return src([fake(schemas[i]) for i in seq])
+                a = once()
+                if once() != a:
+                    unstable.append(idx)
+                digests[idx] = hashlib.sha1(a.encode()).hexdigest()[:16]
+            out.append({"seed": k, "digests": [digests[i] for i in range(len(seqs))],
+                        "unstable": sorted(unstable)})
+        json.dump({"runs": out}, sys.stdout)
     else:
         rng = e2.Scripted(0, record_callers=True)
         out = []
